@@ -262,3 +262,147 @@ package valid
 //@ regex [C05 language.IdCardRe]    IdCardRe == `^([0-9]{15}|[0-9]{18}|[0-9]{17}[0-9Xx])$`
 //@ regex [C05 language.EmailRe]     EmailRe == `^[0-9A-Za-z_]+([-+.][0-9A-Za-z_]+)*@[0-9A-Za-z_]+([-.][0-9A-Za-z_]+)*\.[0-9A-Za-z_]+([-.][0-9A-Za-z_]+)*$`
 //@ regex [C05 C15 language.IncludeZhRe] IncludeZhRe == `[\x{4e00}-\x{9fa5}]`
+
+// ---------------------------------------------------------------------------
+// C05 (verdict), C02 (at most one clause per rule, append-only): format rules on strings.
+// wrote(errBuf) is sb.nw(errBuf) > old(sb.nw(errBuf)): the rule appended a clause to the error builder.
+
+//@ func CheckFieldIsStr
+//@   modifies nothing
+//@   ensures [C05 C13 isstr] (err == nil) <==> rv.kind(tv) == 24
+
+//@ func Phone
+//@   requires errBuf != nil && rv.valid(tv) && !rv.ro(tv)
+//@   modifies sb.content(errBuf), sb.nw(errBuf)
+//@   ensures [C05 phone.verdict] rv.kind(tv) == 24 ==> ((sb.nw(errBuf) > old(sb.nw(errBuf))) <==> !matches(PhoneRe, rv.str(tv)))
+//@   ensures [C02 phone.once] sb.nw(errBuf) <= old(sb.nw(errBuf)) + 1 && prefixof(old(sb.content(errBuf)), sb.content(errBuf))
+
+//@ func Email
+//@   requires errBuf != nil && rv.valid(tv) && !rv.ro(tv)
+//@   modifies sb.content(errBuf), sb.nw(errBuf)
+//@   ensures [C05 email.verdict] rv.kind(tv) == 24 ==> ((sb.nw(errBuf) > old(sb.nw(errBuf))) <==> !matches(EmailRe, rv.str(tv)))
+//@   ensures [C02 email.once] sb.nw(errBuf) <= old(sb.nw(errBuf)) + 1 && prefixof(old(sb.content(errBuf)), sb.content(errBuf))
+
+//@ func IDCard
+//@   requires errBuf != nil && rv.valid(tv) && !rv.ro(tv)
+//@   modifies sb.content(errBuf), sb.nw(errBuf)
+//@   ensures [C05 idcard.verdict] rv.kind(tv) == 24 ==> ((sb.nw(errBuf) > old(sb.nw(errBuf))) <==> !matches(IdCardRe, rv.str(tv)))
+//@   ensures [C02 idcard.once] sb.nw(errBuf) <= old(sb.nw(errBuf)) + 1 && prefixof(old(sb.content(errBuf)), sb.content(errBuf))
+
+//@ func Ip
+//@   requires errBuf != nil && rv.valid(tv) && !rv.ro(tv)
+//@   modifies sb.content(errBuf), sb.nw(errBuf)
+//@   ensures [C05 ip.verdict] rv.kind(tv) == 24 ==> ((sb.nw(errBuf) > old(sb.nw(errBuf))) <==> (parseIP(rv.str(tv)) == nil))
+//@   ensures [C02 ip.once] sb.nw(errBuf) <= old(sb.nw(errBuf)) + 1 && prefixof(old(sb.content(errBuf)), sb.content(errBuf))
+
+//@ func Ipv4
+//@   requires errBuf != nil && rv.valid(tv) && !rv.ro(tv)
+//@   modifies sb.content(errBuf), sb.nw(errBuf)
+//@   ensures [C05 ipv4.verdict] rv.kind(tv) == 24 ==> ((sb.nw(errBuf) > old(sb.nw(errBuf))) <==> (parseIP(rv.str(tv)) == nil || ipTo4(parseIP(rv.str(tv))) == nil))
+//@   ensures [C02 ipv4.once] sb.nw(errBuf) <= old(sb.nw(errBuf)) + 1 && prefixof(old(sb.content(errBuf)), sb.content(errBuf))
+
+//@ func Ipv6
+//@   requires errBuf != nil && rv.valid(tv) && !rv.ro(tv)
+//@   modifies sb.content(errBuf), sb.nw(errBuf)
+//@   ensures [C05 ipv6.verdict] rv.kind(tv) == 24 ==> ((sb.nw(errBuf) > old(sb.nw(errBuf))) <==> (parseIP(rv.str(tv)) == nil || ipTo4(parseIP(rv.str(tv))) != nil))
+//@   ensures [C02 ipv6.once] sb.nw(errBuf) <= old(sb.nw(errBuf)) + 1 && prefixof(old(sb.content(errBuf)), sb.content(errBuf))
+
+//@ func Year
+//@   requires errBuf != nil && rv.valid(tv) && !rv.ro(tv)
+//@   modifies sb.content(errBuf), sb.nw(errBuf)
+//@   ensures [C05 year.verdict] rv.kind(tv) == 24 ==> ((sb.nw(errBuf) > old(sb.nw(errBuf))) <==> (!timeParses("2006", rv.str(tv))))
+//@   ensures [C02 year.once] sb.nw(errBuf) <= old(sb.nw(errBuf)) + 1 && prefixof(old(sb.content(errBuf)), sb.content(errBuf))
+
+//@ func Prefix
+//@   requires errBuf != nil && rv.valid(tv) && !rv.ro(tv)
+//@   modifies sb.content(errBuf), sb.nw(errBuf)
+//@   ensures [C05 prefix.verdict] rv.kind(tv) == 24 ==> ((sb.nw(errBuf) > old(sb.nw(errBuf))) <==> (!prefixof(ParseValidNameKV.value(validName), rv.str(tv))))
+//@   ensures [C02 prefix.once] sb.nw(errBuf) <= old(sb.nw(errBuf)) + 1 && prefixof(old(sb.content(errBuf)), sb.content(errBuf))
+
+//@ func Suffix
+//@   requires errBuf != nil && rv.valid(tv) && !rv.ro(tv)
+//@   modifies sb.content(errBuf), sb.nw(errBuf)
+//@   ensures [C05 suffix.verdict] rv.kind(tv) == 24 ==> ((sb.nw(errBuf) > old(sb.nw(errBuf))) <==> (!suffixof(ParseValidNameKV.value(validName), rv.str(tv))))
+//@   ensures [C02 suffix.once] sb.nw(errBuf) <= old(sb.nw(errBuf)) + 1 && prefixof(old(sb.content(errBuf)), sb.content(errBuf))
+
+//@ func File
+//@   requires errBuf != nil && rv.valid(tv) && !rv.ro(tv)
+//@   modifies sb.content(errBuf), sb.nw(errBuf)
+//@   ensures [C05 file.verdict] rv.kind(tv) == 24 ==> ((sb.nw(errBuf) > old(sb.nw(errBuf))) <==> (!statOk(rv.str(tv)) || statIsDir(rv.str(tv))))
+//@   ensures [C02 file.once] sb.nw(errBuf) <= old(sb.nw(errBuf)) + 1 && prefixof(old(sb.content(errBuf)), sb.content(errBuf))
+
+//@ func Dir
+//@   requires errBuf != nil && rv.valid(tv) && !rv.ro(tv)
+//@   modifies sb.content(errBuf), sb.nw(errBuf)
+//@   ensures [C05 dir.verdict] rv.kind(tv) == 24 ==> ((sb.nw(errBuf) > old(sb.nw(errBuf))) <==> (!statOk(rv.str(tv)) || !statIsDir(rv.str(tv))))
+//@   ensures [C02 dir.once] sb.nw(errBuf) <= old(sb.nw(errBuf)) + 1 && prefixof(old(sb.content(errBuf)), sb.content(errBuf))
+
+//@ func Json
+//@   requires errBuf != nil && rv.valid(tv) && !rv.ro(tv)
+//@   modifies sb.content(errBuf), sb.nw(errBuf)
+//@   ensures [C05 json.verdict] rv.kind(tv) == 24 ==> ((sb.nw(errBuf) > old(sb.nw(errBuf))) <==> (!jsonValid(rv.str(tv))))
+//@   ensures [C02 json.once] sb.nw(errBuf) <= old(sb.nw(errBuf)) + 1 && prefixof(old(sb.content(errBuf)), sb.content(errBuf))
+
+//@ func Year2Month
+//@   requires errBuf != nil && rv.valid(tv) && !rv.ro(tv)
+//@   let val = ParseValidNameKV.value(validName)
+//@   let sep = ite(val != "", trimSet(val, "'"), "-")
+//@   modifies sb.content(errBuf), sb.nw(errBuf)
+//@   ensures [C05 year2month.verdict] rv.kind(tv) == 24 ==> ((sb.nw(errBuf) > old(sb.nw(errBuf))) <==> !timeParses("2006" ++ sep ++ "01", rv.str(tv)))
+//@   ensures [C02 year2month.once] sb.nw(errBuf) <= old(sb.nw(errBuf)) + 1 && prefixof(old(sb.content(errBuf)), sb.content(errBuf))
+
+//@ func Date
+//@   requires errBuf != nil && rv.valid(tv) && !rv.ro(tv)
+//@   let val = ParseValidNameKV.value(validName)
+//@   let sep = ite(val != "", trimSet(val, "'"), "-")
+//@   modifies sb.content(errBuf), sb.nw(errBuf)
+//@   ensures [C05 date.verdict] rv.kind(tv) == 24 ==> ((sb.nw(errBuf) > old(sb.nw(errBuf))) <==> !timeParses("2006" ++ sep ++ "01" ++ sep ++ "02", rv.str(tv)))
+//@   ensures [C02 date.once] sb.nw(errBuf) <= old(sb.nw(errBuf)) + 1 && prefixof(old(sb.content(errBuf)), sb.content(errBuf))
+
+//@ func Int
+//@   requires errBuf != nil && rv.valid(tv) && !rv.ro(tv)
+//@   let k = rv.kind(tv)
+//@   modifies sb.content(errBuf), sb.nw(errBuf)
+//@   ensures [C05 int.verdict.str] k == 24 ==> ((sb.nw(errBuf) > old(sb.nw(errBuf))) <==> !matches(IntRe, rv.str(tv)))
+//@   ensures [C05 int.verdict.num] isIntKind(k) || isUintNKind(k) ==> sb.nw(errBuf) == old(sb.nw(errBuf))
+//@   ensures [C05 int.verdict.other] k != 24 && !isIntKind(k) && !isUintNKind(k) ==> sb.nw(errBuf) > old(sb.nw(errBuf))
+//@   ensures [C02 int.once] sb.nw(errBuf) <= old(sb.nw(errBuf)) + 1 && prefixof(old(sb.content(errBuf)), sb.content(errBuf))
+
+//@ func Float
+//@   requires errBuf != nil && rv.valid(tv) && !rv.ro(tv)
+//@   let k = rv.kind(tv)
+//@   modifies sb.content(errBuf), sb.nw(errBuf)
+//@   ensures [C05 float.verdict.str] k == 24 ==> ((sb.nw(errBuf) > old(sb.nw(errBuf))) <==> !matches(FloatRe, rv.str(tv)))
+//@   ensures [C05 float.verdict.num] isFloatKind(k) ==> sb.nw(errBuf) == old(sb.nw(errBuf))
+//@   ensures [C05 float.verdict.other] k != 24 && !isFloatKind(k) ==> sb.nw(errBuf) > old(sb.nw(errBuf))
+//@   ensures [C02 float.once] sb.nw(errBuf) <= old(sb.nw(errBuf)) + 1 && prefixof(old(sb.content(errBuf)), sb.content(errBuf))
+
+//@ func ReflectKindIsNum
+//@   modifies nothing
+//@   ensures [C05 kindisnum] is == (isIntKind(kind) || isUintNKind(kind) || (isFloatKind(kind) && len(isCanFloat) > 0 && isCanFloat[0]))
+
+//@ func dir
+//@   modifies nothing
+//@   ensures (result1 == nil) <==> statOk(path)
+//@   ensures statOk(path) ==> result0 == statIsDir(path)
+//@   ensures result1 != nil ==> !result0
+
+// GetTimeFmt: the layouts the date rules hand to time.Parse (d, dt, t are the separators in force)
+//@ func GetTimeFmt$1
+//@   modifies nothing
+//@   ensures result == ite(old == "", join, ite(join == "", old, old ++ split ++ join))
+
+//@ func GetTimeFmt
+//@   let d  = ite(len(splits) >= 1 && len(splits) <= 3, splits[0], "-")
+//@   let dt = ite(len(splits) >= 2 && len(splits) <= 3, splits[1], " ")
+//@   let t  = ite(len(splits) == 3, splits[2], ":")
+//@   modifies nothing
+//@   ensures [C05 layout.year]       fmtType == 1  ==> result == "2006"
+//@   ensures [C05 layout.year2month] fmtType == 3  ==> result == "2006" ++ d ++ "01"
+//@   ensures [C05 layout.date]       fmtType == 7  ==> result == "2006" ++ d ++ "01" ++ d ++ "02"
+//@   ensures [C05 layout.datetime]   fmtType == 63 ==> result == "2006" ++ d ++ "01" ++ d ++ "02" ++ dt ++ "15" ++ t ++ "04" ++ t ++ "05"
+
+//@ func StrEscape
+//@   modifies nothing
+//@   loop#0 invariant 0 <= pos && pos <= 2 * i && 0 <= i && i <= vLen && len(buf) == 2 * vLen && vLen == len(val)
+//@   loop#0 decreases vLen - i
